@@ -78,17 +78,17 @@ def write_cfg(path, base_cfg, overrides):
 
 
 def tlc(specdir, module, cfg, args, timeout, env=None, workers=None):
-    meta = os.path.join(specdir, "meta_%s_%d" % (module, int(time.time() * 1000) % 10 ** 9))
+    meta = os.path.join(specdir, "meta_%s_%s" % (module, hashlib.sha1((cfg + str(time.time())).encode()).hexdigest()[:10]))
     cmd = ["tlc", "-workers", str(workers or NCPU), "-metadir", meta, "-noGenerateSpecTE", "-config", cfg] + args + [module + ".tla"]
     rc, out, dt = run(cmd, timeout, env=env, cwd=specdir, what="tlc " + module)
     shutil.rmtree(meta, ignore_errors=True)
     return rc, out, dt
 
 
-def model_check(specdir, module, cfgname, overrides, timeout):
-    cfg = os.path.join(specdir, "_mc_%s.cfg" % module)
+def model_check(specdir, module, cfgname, overrides, timeout, workers=None, tag=""):
+    cfg = os.path.join(specdir, "_mc_%s%s.cfg" % (module, tag))
     write_cfg(cfg, os.path.join(specdir, cfgname), overrides)
-    rc, out, dt = tlc(specdir, module, cfg, [], timeout)
+    rc, out, dt = tlc(specdir, module, cfg, [], timeout, workers=workers)
     m = re.search(r"(\d+) states generated, (\d+) distinct states found", out)
     if rc != 0 or "Model checking completed. No error has been found." not in out or not m:
         # a violation here means the SPECIFICATION violates the property: machinery/design defect
@@ -100,9 +100,9 @@ def unescape_tlc(s):
     return s.replace('\\"', '"').replace("\\\\", "\\")
 
 
-def generate(specdir, module, cfgname, overrides, mode, num, depth, seed, timeout):
+def generate(specdir, module, cfgname, overrides, mode, num, depth, seed, timeout, workers=None, tag=""):
     """mode 'bfs': all histories of length depth; mode 'sim': num random histories."""
-    cfg = os.path.join(specdir, "_gen_%s_%s.cfg" % (module, mode))
+    cfg = os.path.join(specdir, "_gen_%s_%s%s.cfg" % (module, mode, tag))
     ov = dict(overrides)
     ov["GenDepth"] = str(depth)
     write_cfg(cfg, os.path.join(specdir, cfgname), ov)
@@ -113,7 +113,7 @@ def generate(specdir, module, cfgname, overrides, mode, num, depth, seed, timeou
         args = ["-simulate", "num=%d" % num, "-depth", str(depth + 2), "-seed", str(seed)]
         rc, out, dt = tlc(specdir, module, cfg, args, timeout, workers=1)
     else:
-        rc, out, dt = tlc(specdir, module, cfg, [], timeout)
+        rc, out, dt = tlc(specdir, module, cfg, [], timeout, workers=workers)
     behs = []
     for ln in out.splitlines():
         m = re.match(r'^<<"BEHAVIOUR", "(.*)">>$', ln.strip())
@@ -208,7 +208,8 @@ def validate(specdir, trace, swap, timeout=3600, parallel=None):
             r["k"] += off
             got.append(r)
         if p.returncode != 0 or "No error has been found" not in out or len(got) != cnt:
-            raise Machinery("trace validation failed (rc=%s, %d/%d lines):\n%s" % (p.returncode, len(got), cnt, out[-3000:]))
+            errs = [l for l in out.splitlines() if l.startswith("Error") or "which is not" in l or "Attempted" in l or "non-" in l]
+            raise Machinery("trace validation failed (rc=%s, %d/%d lines): %s\n%s" % (p.returncode, len(got), cnt, " | ".join(errs[:8]), out[-600:]))
         os.remove(part)
         recs.extend(got)
     recs.sort(key=lambda r: r["k"])
